@@ -1,4 +1,4 @@
-import MypyVerif.Proofs.CFast
+import MypyVerif.Proofs.FixedWidth
 /-!
 # C15 — compiled numeric primitives compute exactly what Python computes
 
@@ -18,7 +18,7 @@ Property theorems over the *generated* definitions of `Gen/CFast.lean` (the C fa
 * `⊙_no_ub`         — the inline code never executes an operation C leaves undefined.
 -/
 namespace C15
-open CFast Tagged CSem CFastProofs
+open CFast Tagged CSem CFastProofs FixedWidth
 
 /-! ## representation -/
 
@@ -355,5 +355,254 @@ theorem compare_short (l r : BitVec 64) (hl : isShort l) (hr : isShort r) :
 
 example : CPyTagged_IsLt 18446744073709551614#64 0#64 = .fast true := by decide      -- -1 < 0
 example : (CPyTagged_IsLt 1#64 0#64).isSlow = true := by decide                      -- long operand
+
+/-! ## `>>` and `<<` -/
+
+theorem rshift_fast_correct (l r v : BitVec 64) (h : CPyTagged_Rshift l r = .fast v) :
+    isShort l ∧ isShort r ∧ 0 ≤ sval r ∧ isShort v ∧ sval v = pyShr (sval l) (sval r).toNat := by
+  rw [rshift_eq] at h
+  obtain ⟨hc, rfl⟩ := fast_of_ite h
+  exact ⟨hc.1, hc.2.1, hc.2.2, enc_short _ (rshift_fits l r hc)⟩
+
+/-- `>>` is exact: the result always fits; the slow path is taken iff an operand is long or the count is
+    negative (`ValueError`, raised by the slow path). -/
+theorem rshift_slow_iff (l r : BitVec 64) :
+    (CPyTagged_Rshift l r).isSlow = true ↔ ¬ (isShort l ∧ isShort r ∧ 0 ≤ sval r) := by
+  rw [rshift_eq]; exact isSlow_ite
+
+theorem rshift_total (V : Valuation) (l r : BitVec 64) (hn : 0 ≤ V.val r) :
+    denoteInt V (CPyTagged_Rshift l r) = .int (pyShr (V.val l) (V.val r).toNat) := by
+  rw [rshift_eq]
+  split
+  · rename_i hc
+    obtain ⟨h1, h2⟩ := enc_short _ (rshift_fits l r hc)
+    rw [denoteInt_fast V _ h1, h2, val_short V l hc.1, val_short V r hc.2.1]
+  · have : ¬ V.val r < 0 := by omega
+    simp [denoteInt, denoteCall, slowSpec, this]
+
+theorem rshift_no_ub' (l r : BitVec 64) : CPyTagged_Rshift_ub l r = false := rshift_no_ub l r
+
+example : CPyTagged_Rshift 18446744073709551602#64 2#64 = .fast 18446744073709551608#64 := by decide  -- -7 >> 1 = -4
+example : CPyTagged_Rshift 18446744073709551602#64 400#64 = .fast 18446744073709551614#64 := by decide -- -7 >> 200 = -1
+example : (CPyTagged_Rshift 2#64 18446744073709551614#64).isSlow = true := by decide                  -- 1 >> -1
+
+theorem lshift_fast_correct (l r v : BitVec 64) (h : CPyTagged_Lshift l r = .fast v) :
+    isShort l ∧ isShort r ∧ 0 ≤ sval r ∧ isShort v ∧ sval v = pyShl (sval l) (sval r).toNat := by
+  rw [lshift_eq] at h
+  obtain ⟨hc, rfl⟩ := fast_of_ite h
+  exact ⟨hc.1, hc.2.1, hc.2.2.1, enc_short _ hc.2.2.2.2⟩
+
+/-- Full statement false: `0 << 64 = 0` fits, but counts ≥ 64 always take the slow path. -/
+theorem not_lshift_slow_exact : ¬ ∀ l r : BitVec 64,
+    ((CPyTagged_Lshift l r).isSlow = true ↔
+      ¬ (isShort l ∧ isShort r ∧ 0 ≤ sval r ∧ Fits (pyShl (sval l) (sval r).toNat))) := by
+  intro h
+  have := (h 0#64 128#64).1 (by decide)
+  exact this (by decide)
+
+/-- What holds: for counts below 64 the overflow test `IsShortLshiftOverflow` is exact. -/
+theorem lshift_slow_partial (l r : BitVec 64) :
+    (CPyTagged_Lshift l r).isSlow = true ↔
+      ¬ (isShort l ∧ isShort r ∧ 0 ≤ sval r ∧ sval r < 64 ∧ Fits (pyShl (sval l) (sval r).toNat)) := by
+  rw [lshift_eq]; exact isSlow_ite
+
+theorem lshift_total (V : Valuation) (l r : BitVec 64) (hn : 0 ≤ V.val r) :
+    denoteInt V (CPyTagged_Lshift l r) = .int (pyShl (V.val l) (V.val r).toNat) := by
+  rw [lshift_eq]
+  split
+  · rename_i hc
+    obtain ⟨h1, h2⟩ := enc_short _ hc.2.2.2.2
+    rw [denoteInt_fast V _ h1, h2, val_short V l hc.1, val_short V r hc.2.1]
+  · have : ¬ V.val r < 0 := by omega
+    simp [denoteInt, denoteCall, slowSpec, this]
+
+theorem lshift_no_ub' (l r : BitVec 64) : CPyTagged_Lshift_ub l r = false := lshift_no_ub l r
+
+example : CPyTagged_Lshift 6#64 8#64 = .fast 96#64 := by decide                            -- 3 << 4 = 48
+example : (CPyTagged_Lshift 2#64 124#64).isSlow = true := by decide                         -- 1 << 62 does not fit
+example : CPyTagged_Lshift 18446744073709551614#64 124#64 = .fast 9223372036854775808#64 := by decide  -- -1 << 62 = -2^62 fits
+
+/-! ## the fixed-width division helpers of `int_ops.c` -/
+
+/-- `i64 // i64`: `ZeroDivisionError` iff the divisor is 0; `OverflowError` iff `INT64_MIN // -1` (the only
+    quotient that does not fit); otherwise the value is Python's floor quotient. -/
+theorem int64_divide_spec (x y : BitVec 64) : CPyInt64_Divide x y =
+    if y.toInt = 0 then .raise "ZeroDivisionError" 18446744073709551503#64
+    else if y.toInt = -1 ∧ x.toInt = -9223372036854775808 then .raise "OverflowError" 18446744073709551503#64
+    else .fast (BitVec.ofInt 64 (x.toInt.fdiv y.toInt)) := int64_divide_eq x y
+
+theorem int64_remainder_spec (x y : BitVec 64) : CPyInt64_Remainder x y =
+    if y.toInt = 0 then .raise "ZeroDivisionError" 18446744073709551503#64
+    else .fast (BitVec.ofInt 64 (x.toInt.fmod y.toInt)) := int64_remainder_eq x y
+
+theorem int32_divide_spec (x y : BitVec 32) : CPyInt32_Divide x y =
+    if y.toInt = 0 then .raise "ZeroDivisionError" 4294967183#32
+    else if y.toInt = -1 ∧ x.toInt = -2147483648 then .raise "OverflowError" 4294967183#32
+    else .fast (BitVec.ofInt 32 (x.toInt.fdiv y.toInt)) := int32_divide_eq x y
+
+theorem int32_remainder_spec (x y : BitVec 32) : CPyInt32_Remainder x y =
+    if y.toInt = 0 then .raise "ZeroDivisionError" 4294967183#32
+    else .fast (BitVec.ofInt 32 (x.toInt.fmod y.toInt)) := int32_remainder_eq x y
+
+theorem int16_divide_spec (x y : BitVec 16) : CPyInt16_Divide x y =
+    if y.toInt = 0 then .raise "ZeroDivisionError" 65423#16
+    else if y.toInt = -1 ∧ x.toInt = -32768 then .raise "OverflowError" 65423#16
+    else .fast (BitVec.ofInt 16 (x.toInt.fdiv y.toInt)) := int16_divide_eq x y
+
+theorem int16_remainder_spec (x y : BitVec 16) : CPyInt16_Remainder x y =
+    if y.toInt = 0 then .raise "ZeroDivisionError" 65423#16
+    else .fast (BitVec.ofInt 16 (x.toInt.fmod y.toInt)) := int16_remainder_eq x y
+
+/-- the quotient / remainder reported on the fast path is the exact one whenever it is representable -/
+theorem fixed_divide_exact (x y : BitVec 64) (v : BitVec 64) (h : CPyInt64_Divide x y = .fast v) :
+    y.toInt ≠ 0 ∧ v.toInt = x.toInt.fdiv y.toInt := by
+  rw [int64_divide_eq] at h
+  split at h
+  · cases h
+  · split at h
+    · cases h
+    · rename_i hz ho
+      injection h with h; subst h
+      refine ⟨hz, ?_⟩
+      rw [BitVec.toInt_ofInt]
+      have hr := fdiv_range64 x y hz ho
+      exact Int.bmod_eq_of_le_mul_two (by omega) (by omega)
+
+/-- none of the six helpers divides by zero or computes `INT_MIN / -1` in C -/
+theorem fixed_divide_no_ub :
+    (∀ x y, CPyInt64_Divide_ub x y = false) ∧ (∀ x y, CPyInt64_Remainder_ub x y = false) ∧
+    (∀ x y, CPyInt32_Divide_ub x y = false) ∧ (∀ x y, CPyInt32_Remainder_ub x y = false) ∧
+    (∀ x y, CPyInt16_Divide_ub x y = false) ∧ (∀ x y, CPyInt16_Remainder_ub x y = false) :=
+  ⟨int64_divide_no_ub, int64_remainder_no_ub, int32_divide_no_ub, int32_remainder_no_ub,
+   int16_divide_no_ub, int16_remainder_no_ub⟩
+
+/-- the error value returned with a pending exception is the one the callers test (`c_undefined`) -/
+theorem fixed_error_values : cUndefined.lookup "i64" = some "-113" ∧ cUndefined.lookup "i32" = some "-113" ∧
+    cUndefined.lookup "i16" = some "-113" ∧ (18446744073709551503#64 : BitVec 64).toInt = -113 ∧
+    (4294967183#32 : BitVec 32).toInt = -113 ∧ (65423#16 : BitVec 16).toInt = -113 := by decide
+
+example : CPyInt64_Divide 18446744073709551609#64 2#64 = .fast 18446744073709551612#64 := by decide   -- -7 // 2 = -4
+example : CPyInt64_Divide 9223372036854775808#64 18446744073709551615#64 = .raise "OverflowError" 18446744073709551503#64 := by decide
+example : CPyInt32_Remainder 4294967289#32 2#32 = .fast 1#32 := by decide                             -- -7 % 2 = 1
+
+/-! ## the operator tables (regenerated from the live registries) -/
+
+/-- Which C function must implement which operator on two `int`s. -/
+def expectedBinary : List (String × String) :=
+  [("+", "CPyTagged_Add"), ("-", "CPyTagged_Subtract"), ("*", "CPyTagged_Multiply"),
+   ("//", "CPyTagged_FloorDivide"), ("%", "CPyTagged_Remainder"), ("&", "CPyTagged_And"),
+   ("|", "CPyTagged_Or"), ("^", "CPyTagged_Xor"), ("<<", "CPyTagged_Lshift"), (">>", "CPyTagged_Rshift"),
+   ("/", "CPyTagged_TrueDivide"),
+   ("+=", "CPyTagged_Add"), ("-=", "CPyTagged_Subtract"), ("*=", "CPyTagged_Multiply"),
+   ("//=", "CPyTagged_FloorDivide"), ("%=", "CPyTagged_Remainder"), ("&=", "CPyTagged_And"),
+   ("|=", "CPyTagged_Or"), ("^=", "CPyTagged_Xor"), ("<<=", "CPyTagged_Lshift"), (">>=", "CPyTagged_Rshift")]
+
+/-- operators whose C function can fail (division by zero, negative shift count): the primitive must not be
+    registered as `ERR_NEVER` (0), or the exception raised by the slow path would be lost -/
+def mayRaise (op : String) : Bool :=
+  op ∈ ["//", "%", "<<", ">>", "/", "//=", "%=", "<<=", ">>="]
+
+/-- Every `(int, int)` primitive registered in `mypyc.primitives.int_ops` is bound to the C function whose
+    theorems above are about that operator, with an error kind that propagates exceptions where they can
+    occur; and every operator is registered. -/
+theorem int_primitive_table_ok :
+    intBinaryOps.all (fun e => expectedBinary.lookup e.1 == some e.2.1 && (!mayRaise e.1 || e.2.2 != 0)) = true ∧
+    expectedBinary.all (fun e => intBinaryOps.any (fun r => r.1 == e.1)) = true ∧
+    intUnaryOps.all (fun e => [("-", "CPyTagged_Negate"), ("~", "CPyTagged_Invert")].lookup e.1 == some e.2.1) = true ∧
+    ["-", "~"].all (fun op => intUnaryOps.any (fun r => r.1 == op)) = true := by decide
+
+/-! ## comparison lowering (`compare_tagged` with the regenerated `int_comparison_op_mapping`) -/
+
+theorem compare_tagged_correct (V : Valuation) (l r : BitVec 64) :
+    ∀ row ∈ intComparisonOpMapping,
+      denoteBool V (compareTagged row l r) = .bool (pyCmp row.1 (V.val l) (V.val r)) :=
+  compareTagged_total V l r
+
+theorem compare_tagged_all_operators :
+    ["==", "!=", "<", "<=", ">", ">="].all (fun op => intComparisonOpMapping.any (fun row => row.1 == op)) = true :=
+  comparison_table_complete
+
+example : compareTagged ("<", "SLT", "CPyTagged_IsLt_", false, false) 18446744073709551614#64 0#64 = .fast true := by decide
+
+/-! ## fixed-width operations (`fixed_width_int_op` & co.) -/
+
+/-- signed `+ - *` and unary `-`: the register holds the exact result whenever it fits the type -/
+theorem fixed_signed_exact {w : Nat} (a b : BitVec w) :
+    (InRange w true (a.toInt + b.toInt) → fwVal true (intOp true .add a b) = fwVal true a + fwVal true b) ∧
+    (InRange w true (a.toInt - b.toInt) → fwVal true (intOp true .sub a b) = fwVal true a - fwVal true b) ∧
+    (InRange w true (a.toInt * b.toInt) → fwVal true (intOp true .mul a b) = fwVal true a * fwVal true b) ∧
+    (InRange w true (-a.toInt) → fwVal true (FixedWidth.neg a) = -fwVal true a) :=
+  ⟨signed_add_exact a b, signed_sub_exact a b, signed_mul_exact a b, signed_neg_exact a⟩
+
+/-- `u8` (any unsigned width) `+ - *` wrap modulo `2^w` -/
+theorem u8_wraps (a b : BitVec 8) :
+    fwVal false (intOp false .add a b) = (fwVal false a + fwVal false b) % 256 ∧
+    fwVal false (intOp false .sub a b) = (fwVal false a - fwVal false b) % 256 ∧
+    fwVal false (intOp false .mul a b) = (fwVal false a * fwVal false b) % 256 :=
+  ⟨unsigned_add_wrap a b, unsigned_sub_wrap a b, unsigned_mul_wrap a b⟩
+
+/-- shifts with an in-range count: `<<` exact whenever the product fits, `>>` is floor division -/
+theorem fixed_shifts_exact {w : Nat} (a : BitVec w) (k : Nat) :
+    (InRange w true (a.toInt * ((2 ^ k : Nat) : Int)) → (a <<< k).toInt = a.toInt * ((2 ^ k : Nat) : Int)) ∧
+    (a.toNat * 2 ^ k < 2 ^ w → (a <<< k).toNat = a.toNat * 2 ^ k) ∧
+    (a.sshiftRight k).toInt = a.toInt / ((2 ^ k : Nat) : Int) ∧
+    (a >>> k).toNat = a.toNat / 2 ^ k :=
+  ⟨signed_shl_exact a k, unsigned_shl_exact a k, signed_shr_exact a k, unsigned_shr_exact a k⟩
+
+/-- `//` and `%` by a literal other than 0 and -1 (`inline_fixed_width_divide/mod`): Python's floor semantics -/
+theorem inline_divide_exact :
+    (∀ a c : BitVec 64, c.toInt ≠ 0 → c.toInt ≠ -1 → (inlineDivide a c).toInt = a.toInt.fdiv c.toInt) ∧
+    (∀ a c : BitVec 32, c.toInt ≠ 0 → c.toInt ≠ -1 → (inlineDivide a c).toInt = a.toInt.fdiv c.toInt) ∧
+    (∀ a c : BitVec 16, c.toInt ≠ 0 → c.toInt ≠ -1 → (inlineDivide a c).toInt = a.toInt.fdiv c.toInt) ∧
+    (∀ a c : BitVec 64, c.toInt ≠ 0 → (inlineMod a c).toInt = a.toInt.fmod c.toInt) ∧
+    (∀ a c : BitVec 32, c.toInt ≠ 0 → (inlineMod a c).toInt = a.toInt.fmod c.toInt) ∧
+    (∀ a c : BitVec 16, c.toInt ≠ 0 → (inlineMod a c).toInt = a.toInt.fmod c.toInt) :=
+  ⟨inlineDivide_exact64, inlineDivide_exact32, inlineDivide_exact16,
+   inlineMod_exact64, inlineMod_exact32, inlineMod_exact16⟩
+
+/-- `u8 // u8`, `u8 % u8`: `ZeroDivisionError` iff the divisor is 0, the exact quotient / remainder otherwise -/
+theorem u8_divide_spec (a b : BitVec 8) :
+    (u8Divide a b = if b.toNat = 0 then .raise "ZeroDivisionError" 239#8 else .fast (a / b)) ∧
+    (u8Mod a b = if b.toNat = 0 then .raise "ZeroDivisionError" 239#8 else .fast (a % b)) ∧
+    (a / b).toNat = a.toNat / b.toNat ∧ (a % b).toNat = a.toNat % b.toNat :=
+  ⟨u8Divide_spec a b, u8Mod_spec a b, BitVec.toNat_udiv, BitVec.toNat_umod⟩
+
+/-! ## conversions `int → iN` (an exception exactly when out of range, never a truncated value) and back -/
+
+theorem int_to_i64_spec (src : BitVec 64) :
+    intToI64 src = (if isShort src then .fast (src.sshiftRight 1)
+                    else .slow ⟨"CPyLong_AsInt64", [src ^^^ 1#64], false⟩) ∧
+    (src.sshiftRight 1).toInt = sval src :=
+  ⟨intToI64_spec src, sval_sshr src⟩
+
+theorem int_to_i32_spec (src : BitVec 64) :
+    (∃ v, intToNarrow 32 true src = .fast v ∧ isShort src ∧ v.toInt = sval src ∧
+        -2147483648 ≤ sval src ∧ sval src < 2147483648) ∨
+    (intToNarrow 32 true src = .raise "ValueError" 0#32 ∧
+        ¬ (isShort src ∧ -2147483648 ≤ sval src ∧ sval src < 2147483648)) := intToI32_spec src
+
+theorem int_to_i16_spec (src : BitVec 64) :
+    (∃ v, intToNarrow 16 true src = .fast v ∧ isShort src ∧ v.toInt = sval src ∧
+        -32768 ≤ sval src ∧ sval src < 32768) ∨
+    (intToNarrow 16 true src = .raise "ValueError" 0#16 ∧
+        ¬ (isShort src ∧ -32768 ≤ sval src ∧ sval src < 32768)) := intToI16_spec src
+
+theorem int_to_u8_spec (src : BitVec 64) :
+    (∃ v, intToNarrow 8 false src = .fast v ∧ isShort src ∧ (v.toNat : Int) = sval src ∧
+        0 ≤ sval src ∧ sval src < 256) ∨
+    (intToNarrow 8 false src = .raise "ValueError" 0#8 ∧
+        ¬ (isShort src ∧ 0 ≤ sval src ∧ sval src < 256)) := intToU8_spec src
+
+theorem fixed_to_int_spec :
+    (∀ src : BitVec 64, i64ToInt src = if Fits src.toInt then .fast (enc src.toInt)
+                                        else .slow ⟨"CPyTagged_FromInt64", [src], false⟩) ∧
+    (∀ src : BitVec 32, isShort (narrowToInt true src) ∧ sval (narrowToInt true src) = src.toInt) ∧
+    (∀ src : BitVec 16, isShort (narrowToInt true src) ∧ sval (narrowToInt true src) = src.toInt) ∧
+    (∀ src : BitVec 8, isShort (narrowToInt false src) ∧ sval (narrowToInt false src) = (src.toNat : Int)) :=
+  ⟨i64ToInt_spec, i32ToInt_spec, i16ToInt_spec, u8ToInt_spec⟩
+
+example : intToNarrow 8 false 510#64 = .fast 255#8 := by decide          -- u8(255)
+example : intToNarrow 8 false 512#64 = .raise "ValueError" 0#8 := by decide   -- u8(256)
+example : intToNarrow 16 true 18446744073709486080#64 = .fast 32768#16 := by decide  -- i16(-32768)
 
 end C15
